@@ -573,4 +573,132 @@ theorem icmp6Hdr_ok (src dst : Bytes) (h : Icmp) (payload : Bytes) (hs : src.len
   simp only [pk_of_encode ec]
   rfl
 
+/-- message types whose bodies are parsed by classes outside the model (errors and NDP, finding D47) -/
+def icmp6Plain (h : Icmp) : Prop :=
+  h.type ≠ 1 ∧ h.type ≠ 2 ∧ h.type ≠ 3 ∧ h.type ≠ 133 ∧ h.type ≠ 134 ∧ h.type ≠ 135 ∧ h.type ≠ 136
+
+/-- `icmpv6(raw = hdr + payload, prev = the IPv6 header)`: the receiver-side verification (`checksum_ok`) accepts what
+`hdr` emitted, the fields come back, echo messages go on to `echo` -/
+theorem icmp6_parse (next : XNext) (src dst : Bytes) (nh : Nat) (h : Icmp) (payload : Bytes) (hs : src.length = 16)
+    (hd : dst.length = 16) (hf : h.Fits) (hp : icmp6Plain h) (hn : payload.length + 4 ≤ 131000) :
+    icmp6Parse (some (.v6 src dst nh)) next (icmp6Bytes src dst h payload ++ payload)
+      = .icmp6 { h with csum := icmp6CsumSpec src dst h payload }
+          (if h.type = 128 ∨ h.type = 129 then next none .echo6 payload else .raw payload) := by
+  have hcs : icmp6CsumSpec src dst h payload < 65536 := rfc1071_lt _
+  have he := icmp_encode h hf _ hcs
+  obtain ⟨hu, hdr, hl4⟩ := unpack_take icmpL _ _ payload he (icmp_fits h hf _ hcs)
+  have hsz : size icmpL = 4 := rfl
+  rw [hsz] at hu hdr hl4
+  have hlen : (icmp6Bytes src dst h payload ++ payload).length = 4 + payload.length := by
+    unfold icmp6Bytes; rw [List.length_append, hl4]
+  have ep := pseudo6_encode (4 + payload.length) 58 (by omega) (by decide)
+  have hpl : (icmpPre h).length = 2 := by simp [icmpPre]
+  -- the verification sum
+  have hver : checksum ((src ++ (dst ++ (beEnc 4 (4 + payload.length) ++ (be16 0 ++ (beEnc 1 0 ++ beEnc 1 58)))))
+        ++ (icmp6Bytes src dst h payload ++ payload)) 0 (some 21) = icmp6CsumSpec src dst h payload := by
+    have hdata : (src ++ (dst ++ (beEnc 4 (4 + payload.length) ++ (be16 0 ++ (beEnc 1 0 ++ beEnc 1 58)))))
+          ++ (icmp6Bytes src dst h payload ++ payload)
+        = (pseudo6 src dst (payload.length + 4) 58 ++ icmpPre h) ++ (be16 (icmp6CsumSpec src dst h payload) ++ payload) := by
+      simp [pseudo6, icmp6Bytes, List.append_assoc, Nat.add_comm]
+    have hlen2 : ((pseudo6 src dst (payload.length + 4) 58 ++ icmpPre h)
+        ++ (be16 (icmp6CsumSpec src dst h payload) ++ payload)).length ≤ 131072 := by
+      simp [pseudo6_length _ _ _ _ hs hd, hpl]; omega
+    rw [hdata, checksum_skip_eq _ 21 hlen2, be16_eq _ hcs]
+    simp only [List.cons_append, List.nil_append]
+    rw [zeroWord_at 21 _ _ _ _ (by simp [pseudo6_length _ _ _ _ hs hd, hpl])]
+    simp [icmp6CsumSpec, List.append_assoc]
+  obtain ⟨p1, p2, p3, p4, p5, p6, p7⟩ := hp
+  unfold icmp6Parse
+  simp only [hlen]
+  unfold icmp6Bytes at hver ⊢
+  simp only [hu, hdr, pk_of_encode ep, hver]
+  have c0 : ¬ (4 + payload.length < 4) := by omega
+  simp [c0, p1, p2, p3, p4, p5, p6, p7]
+  split <;> rfl
+
+theorem echo6_parse (h : Echo) (payload : Bytes) (hf : h.Fits) :
+    echo6Parse (echoBytes h ++ payload) = .echo6 h (.raw payload) := by
+  have hfit : fits echoL [.num h.id, .num h.seq] := by simp [echoL, fits, hf.id, hf.seq]
+  obtain ⟨hu, hd, hl⟩ := unpack_take echoL _ _ payload (echo_encode h hf) hfit
+  have hsz : size echoL = 4 := rfl
+  rw [hsz] at hu hd hl
+  unfold echo6Parse
+  simp only [hu, hd, List.length_append, hl]
+  have c1 : ¬ (4 + payload.length < 4) := by omega
+  simp [c1]
+
+/-! ## IGMP v1/v2 messages (query, reports, leave) -/
+
+structure Igmp.Fits2 (h : Igmp) (a : Nat) : Prop where
+  vt : h.vt = 0x11 ∨ h.vt = 0x12 ∨ h.vt = 0x16 ∨ h.vt = 0x17
+  mrt : h.mrt < 256
+  addr : h.addr = some a
+  addrR : a < 4294967296
+  groups : h.groups = []
+  extra : h.extra.length + 8 ≤ 131072
+
+def igmpPre (h : Igmp) : Bytes := beEnc 1 h.vt ++ beEnc 1 h.mrt
+
+/-- RFC 2236 §2.3: RFC 1071 over the whole message with a zero checksum -/
+def igmp2CsumSpec (h : Igmp) (a : Nat) : Nat := rfc1071 (igmpPre h ++ 0 :: 0 :: (beEnc 4 a ++ h.extra))
+
+def igmp2Bytes (h : Igmp) (a : Nat) : Bytes := igmpPre h ++ (be16 (igmp2CsumSpec h a) ++ (beEnc 4 a ++ h.extra))
+
+theorem igmp2_encode (h : Igmp) (a c : Nat) (hf : h.Fits2 a) (hc : c < 65536) :
+    encode igmp2L [.num h.vt, .num h.mrt, .num c, .num a] = some (igmpPre h ++ (be16 c ++ beEnc 4 a)) := by
+  have hv : h.vt < 256 := by rcases hf.vt with e | e | e | e <;> rw [e] <;> decide
+  simp [igmp2L, encode, igmpPre, be16, hv, hf.mrt, hc, hf.addrR]
+
+theorem igmp2_checksum (h : Igmp) (a : Nat) (hf : h.Fits2 a) :
+    checksum ((igmpPre h ++ (be16 0 ++ beEnc 4 a)) ++ h.extra) 0 none = igmp2CsumSpec h a := by
+  have hdata : (igmpPre h ++ (be16 0 ++ beEnc 4 a)) ++ h.extra = igmpPre h ++ 0 :: 0 :: (beEnc 4 a ++ h.extra) := by
+    simp [be16_zero, List.append_assoc]
+  have hlen : (igmpPre h ++ 0 :: 0 :: (beEnc 4 a ++ h.extra)).length ≤ 131072 := by
+    have := hf.extra; simp [igmpPre]; omega
+  rw [hdata, checksum_eq _ hlen]; rfl
+
+theorem igmpHdr_v2_ok (h : Igmp) (a : Nat) (hf : h.Fits2 a) :
+    igmpHdr h = .ok ({ h with csum := igmp2CsumSpec h a }, igmp2Bytes h a) := by
+  have hv : h.vt ≠ 0x22 := by rcases hf.vt with e | e | e | e <;> rw [e] <;> decide
+  have e0 := igmp2_encode h a 0 hf (by decide)
+  have ec := igmp2_encode h a (igmp2CsumSpec h a) hf (rfc1071_lt _)
+  unfold igmpHdr
+  simp only [hv, if_false, hf.addr, pk_of_encode e0, bind, Except.bind, pure, Except.pure, igmp2_checksum h a hf,
+    pk_of_encode ec]
+  simp [igmp2Bytes, List.append_assoc]
+
+theorem igmp2_verifies (h : Igmp) (a : Nat) : rfc1071 (igmp2Bytes h a) = 0 := by
+  unfold igmp2Bytes igmp2CsumSpec
+  rw [← List.append_assoc]
+  exact rfc1071_verifies _ _ (by simp [igmpPre])
+
+/-- `igmp(raw = hdr)`: the receiver-side checksum test accepts the message; type, response time, address and any
+trailing bytes come back -/
+theorem igmp_v2_parse (h : Igmp) (a : Nat) (hf : h.Fits2 a) :
+    igmpParse (igmp2Bytes h a) = .igmp { h with csum := igmp2CsumSpec h a } := by
+  have hv : h.vt < 256 := by rcases hf.vt with e | e | e | e <;> rw [e] <;> decide
+  have hv22 : h.vt ≠ 0x22 := by rcases hf.vt with e | e | e | e <;> rw [e] <;> decide
+  have hcs : igmp2CsumSpec h a < 65536 := rfc1071_lt _
+  have hfit : fits igmp2L [.num h.vt, .num h.mrt, .num (igmp2CsumSpec h a), .num a] := by
+    simp [igmp2L, fits, hv, hf.mrt, hcs, hf.addrR]
+  have he := igmp2_encode h a _ hf hcs
+  obtain ⟨hu, hd, hl⟩ := unpack_take igmp2L _ _ h.extra he hfit
+  have hsz : size igmp2L = 8 := rfl
+  rw [hsz] at hu hd hl
+  have hraw : igmp2Bytes h a = (igmpPre h ++ (be16 (igmp2CsumSpec h a) ++ beEnc 4 a)) ++ h.extra := by
+    simp [igmp2Bytes, List.append_assoc]
+  have hhead : ((igmp2Bytes h a).headD 0).toNat = h.vt := by
+    simp [igmp2Bytes, igmpPre, beEnc, Nat.mod_eq_of_lt hv]
+  have hlen : (igmp2Bytes h a).length = 8 + h.extra.length := by rw [hraw, List.length_append, hl]
+  have e0 := igmp2_encode h a 0 hf (by decide)
+  unfold igmpParse
+  rw [hhead, hlen]
+  have c0 : ¬ (8 + h.extra.length < 8) := by omega
+  simp only [c0, if_false, hv22, hf.vt, if_true]
+  rw [hraw, hu, hd]
+  simp only [pk_of_encode e0, igmp2_checksum h a hf]
+  have hg := hf.groups; have ha := hf.addr
+  cases h
+  simp_all
+
 end Pox.Packet
